@@ -101,16 +101,18 @@ NOT_YET = {}
 
 # what is added to the level text about process environments (DESIGN 3.1a) and the last directed additions
 ENVIRONMENTS = {
-    'C01': 'A subset of the units again under python -O.',
+    'C01': 'One list of 1100 and of 3000 postings per scheme; setups refused part-way by the same scheme object before every fourth case. A subset of the units again under python -O.',
     'C02': 'The whole universe of one-byte and of two-byte keywords searched against databases of such keywords. A subset of the units again under python -O and with a HOME in which nothing can be created.',
+    'C03': 'Tokens and keys are generated until the first two bytes of their wire form have taken every one of the 65536 values; the first object with each prefix is round-tripped.',
     'C04': 'The same (K, DB) encrypted by three workers forked from a process that has already built an index: entries disjoint across processes.',
     'C05': 'A subset of the units again on hosts reporting 6 and 7 processors.',
     'C06': 'Three workers forked from a process that has already built an index must not repeat a placement.',
     'C07': 'A subset of the units again under python -O and under a finite address-space limit.',
     'C08': 'A subset of the units again under python -O.',
-    'C09': 'The workflow cut at each of its 6 step boundaries into two real interpreters with different hash seeds that share only the on-disk state.',
+    'C09': 'The same client object first refuses three other schemes\' uninstantiable configurations. The workflow cut at each of its 6 step boundaries into two real interpreters with different hash seeds that share only the on-disk state.',
     'C10': 'One server process serving 220 (800) consecutive connections, again under a 128 open-files limit; BFS again under python -O.',
     'C11': 'A subset of the units again under python -O.',
+    'C12': 'Three triples whose first connection stays for 70 virtual seconds (past every periodic timer) with two queued behind it.',
     'C13': 'The crash points of the two small workloads again as an ordinary user (uid 65534) instead of root.',
     'C14': 'Three workers forked from a process that has used the cipher: IVs, ciphertexts and generated keys pairwise distinct across processes. Contract units again under python -O.',
     'C15': 'Contract units again under python -O.',
